@@ -84,19 +84,19 @@ func c11TXTTokens(thorough bool) (toks []string) {
 	hB := c11TXTSum("a.x.co.uk")
 	hC := c11TXTSum("co.uk")
 	toks = []string{
-		hA[:4],                         // prefix of a name
-		hB[:4],                         // prefix shared by two names
-		"0000",                         // prefix of no name
-		hA[:8],                         // legacy form, true tail
-		hB[:4] + "0000",                // legacy form, tail that is not the hash's
-		strings.ToUpper(hA[:4]),        // upper case in the question
-		c11TXTSum("#a.com")[:4],        // prefix of a commented-out line
-		hA[:3],                         // 3 characters
-		hA[:5],                         // 5 characters
-		"ghij",                         // 4, not hex
-		"zzzz" + hA[4:8],               // 8, head not hex
-		hA[:4] + "zzzz",                // 8, head hex, ignored tail not hex
-		hA[:16],                        // 16 characters
+		hA[:4],                  // prefix of a name
+		hB[:4],                  // prefix shared by two names
+		"0000",                  // prefix of no name
+		hA[:8],                  // legacy form, true tail
+		hB[:4] + "0000",         // legacy form, tail that is not the hash's
+		strings.ToUpper(hA[:4]), // upper case in the question
+		c11TXTSum("#a.com")[:4], // prefix of a commented-out line
+		hA[:3],                  // 3 characters
+		hA[:5],                  // 5 characters
+		"ghij",                  // 4, not hex
+		"zzzz" + hA[4:8],        // 8, head not hex
+		hA[:4] + "zzzz",         // 8, head hex, ignored tail not hex
+		hA[:16],                 // 16 characters
 	}
 	if thorough {
 		toks = append(toks,
